@@ -9,9 +9,8 @@
    input ([FText s], any byte string); what the code makes of it is modelled down to
    encoding/json's rules for decoding an object into a struct:
      * the text is read with JsonText (RFC 8259 reader): metrics = json.Decoder until io.EOF
-       (parse_stream), admission = Decode + Token()==io.EOF (parse_single: one document, only
-       whitespace after it), conversion = ONE Decode and nothing else (parse_first: whatever
-       follows the first document is never looked at);
+       (parse_stream), admission and conversion = Decode + Token()==io.EOF (parse_single: one
+       document, only whitespace after it; conversion since fix 1bbc0df);
      * object -> struct: a key selects the field with exactly that name, else the field whose
        name is equal under Go's foldName (ASCII letters, plus U+017F -> S and U+212A -> K);
        unknown keys are skipped; duplicate keys are processed in text order (last wins, a map
@@ -268,12 +267,12 @@ Definition admission_ok (s : bytes) : bool :=
          end
   end.
 
-(* conversion.ResponseFromFile: ONE Decode; the rest of the file is not read *)
+(* conversion.ResponseFromFile: Decode, then Token() must report io.EOF (fix 1bbc0df) *)
 Definition conversion_ok (s : bytes) : bool :=
   match s with
   | [] => true
-  | _ => match parse_first s with
-         | Some (d, _) => match decode_struct conversion_schema d with Some _ => true | None => false end
+  | _ => match parse_single s with
+         | Some d => match decode_struct conversion_schema d with Some _ => true | None => false end
          | None => false
          end
   end.
